@@ -1,6 +1,6 @@
 (* C07 - honest keypers agree on the eon key despite Byzantine participants.
    This file only states the theorems; proofs are in Proofs/DKGPure.v, Proofs/DKGChain.v,
-   Proofs/DKGLive.v, Proofs/DKGLiveRun.v, Proofs/DKGAlgebra.v; the concrete instance of the examples is Proofs/DKGExamples.v.
+   Proofs/DKGLive.v, Proofs/DKGLiveRun.v, Proofs/DKGConvict.v, Proofs/DKGAlgebra.v; the concrete instance of the examples is Proofs/DKGExamples.v.
 
    Models: Model/DKGPure.v (shlib/puredkg, a dependency, modelled), Model/DKGDriver.v
    (keyper/smobserver: smstate.go and the block transaction of smdriver.go).  All definitions are
@@ -25,7 +25,7 @@ From mathcomp Require Import all_ssreflect all_algebra.
 From Verif Require Import Lib.Bytes Lib.Lagrange.
 From Verif Require Import Model.DKGPure Model.DKGDriver.
 From Verif Require Import Proofs.DKGPure Proofs.DKGChain Proofs.DKGAlgebra Proofs.DKGExamples Proofs.EpochKGAlgebra.
-From Verif Require Import Proofs.DKGLive Proofs.DKGLiveRun Proofs.DKGLiveExamples.
+From Verif Require Import Proofs.DKGLive Proofs.DKGLiveRun Proofs.DKGLiveExamples Proofs.DKGConvict Proofs.DKGConvictExamples.
 From Verif Require Import Generated.DkgPhase Proofs.DkgPhase.
 Import GRing.Theory.
 Local Open Scope ring_scope.
@@ -268,27 +268,102 @@ Proof.
   split; [exact LiveEx.ex_ver|exact LiveEx.ex_success].
 Qed.
 
-(* No false conviction, partial.  Proved, for every instance and state: a dealer is considered
-   corrupt iff it has no accepted commitment, or one of its recorded apologies fails against its
-   commitment, or an accepted accusation against it has no apology.  So a dealer whose commitment
-   was accepted, who answers every accepted accusation with an apology that is recorded, and
-   whose apologies all verify, is in nobody's corrupt set, whatever the others do.  Missing: that
-   an honest dealer's single apology message is included in an apologising-phase block (an
-   assumption on block inclusion the property does not grant for the Byzantine case). *)
-Theorem C07_no_false_conviction_partial :
+(* Who is considered corrupt, for every instance and state: a dealer is not corrupt iff it has an
+   accepted commitment, each of its recorded apologies verifies against the commitment, and every
+   accepted accusation against it has an apology on record. *)
+Theorem C07_not_corrupt_iff :
   forall (C E P : Type) (verify : nat -> E -> C -> bool) (d : pure C E P) (j : nat),
   is_corrupt C E P verify d j = false <->
   exists c, nth_opt (p_commits d) j = Some c /\
     (forall a b v, In ((a, b), v) (p_apos d) -> b = j -> verify a v c = true) /\
     (forall a b, In (a, b) (p_accs d) -> b = j -> apo_mem (a, b) (p_apos d) = true).
 Proof. move=> C E P verify d j; exact: is_corrupt_false_iff. Qed.
-Print Assumptions C07_no_false_conviction_partial.
+Print Assumptions C07_not_corrupt_iff.
 
-Example C07_no_false_conviction_partial_nonvacuous :
+Example C07_not_corrupt_iff_nonvacuous :
   is_corrupt DkgEx.C DkgEx.E DkgEx.P DkgEx.verify DkgEx.d_fin 1 = false /\
   In (0%nat, 1%nat) (p_accs DkgEx.d_fin) /\
   is_corrupt DkgEx.C DkgEx.E DkgEx.P DkgEx.verify DkgEx.d_fin 2 = true.
 Proof. split; first by []. split; [by left|by []]. Qed.
+
+(* No false conviction over block sequences, for every keyper (address me) that processes the
+   chain, whatever the other participants put on it.  Vocabulary (Proofs/DKGConvict.v):
+     held e a0 ph x a     in state x the keyper holds the instance a of eon e (cache synchronised,
+                          eon row stored, no result row yet), in phase ph, keeping what a0 held
+     evs_of blocks        the events of the blocks, each paired with the height of its block
+   The keyper is, at height h0 in the dealing phase of eon e (started at height start, keypers ks,
+   threshold t), in a state x0 with an instance a0 without accusations and apologies whose slot j
+   is empty or holds c - the state the event that starts the eon produces
+   (C07_eon_start_creates_dealing_instance) - and then processes consecutive blocks up to at
+   least the height at which the eon is finalised, none failing.  Dealer j behaves as an honest
+   dealer is seen on the chain:
+     - its commitment c (of admissible degree) is in a block of the dealing phase, and every
+       commitment attributed to j on the chain is c;
+     - every value in an apology attributed to j verifies against c for the accuser it answers;
+     - every accusation against j in a block of the accusing phase is answered, for that accuser,
+       by an apology of j with a well-formed value in a block of the apologising phase.
+   Everything else is arbitrary: other dealers' commitments and evaluations, false accusations
+   against j by any number of keypers, accusations and apologies outside their phases, duplicates,
+   events of other eons.  Then the result row the keyper stores is computed from an instance in
+   which j is not corrupt and holds c; hence (C07_result_checked, good_qualified) a successful
+   result carries c at position j of its qualified vector. *)
+Theorem C07_no_false_conviction :
+  forall (C E P : Type) (commit_of : P -> C) (eval_of : P -> nat -> E) (verify : nat -> E -> C -> bool)
+         (deg_ok : N -> C -> bool) (valid_eval : E -> bool) (me : addr) (L : Z), Z.lt 0 L ->
+  forall (enum : list (N * active C E P) -> list (N * active C E P)), enum_keys_ok C E P enum ->
+  forall (poly_for : N -> P) (e : N) (ks : list addr) (start : Z) (t : N) (j : nat) (c : C)
+         (allh : list (Z * dev C E)),
+  (forall h s c', List.In (h, DCommit s e c') allh -> find_index ks s 0%nat = Some j -> c' = c) ->
+  forall (a0 : active C E P) (x0 : st C E P) (h0 : Z) (lch : Z -> Z) (blocks : list (Z * list (dev C E)))
+         (xf : st C E P),
+  allh = evs_of C E blocks ->
+  held C E P e a0 Dealing x0 a0 ->
+  a_start a0 = start -> a_keypers a0 = ks -> p_eon (a_pure a0) = e -> p_t (a_pure a0) = t ->
+  p_accs (a_pure a0) = nil -> p_apos (a_pure a0) = nil ->
+  (forall c', nth_opt (p_commits (a_pure a0)) j = Some c' -> c' = c) ->
+  Z.le start h0 /\ Z.lt h0 (Z.add start L) ->
+  (forall k b, List.nth_error blocks k = Some b -> fst b = Z.add (Z.add h0 1) (Z.of_nat k)) ->
+  Z.le (Z.add start (Z.mul 3 L)) (Z.add h0 (Z.of_nat (List.length blocks))) ->
+  run_blocks C E P commit_of eval_of verify deg_ok valid_eval me L enum poly_for lch x0 blocks = Some xf ->
+  (exists k b s, List.nth_error blocks k = Some b /\ Z.lt (Z.add (Z.add h0 1) (Z.of_nat k)) (Z.add start L) /\
+     List.In (DCommit s e c) (snd b) /\ find_index ks s 0%nat = Some j /\ deg_ok t c = true) ->
+  (forall h s accusers vals k ad a v,
+     List.In (h, DApology s e accusers vals) allh -> find_index ks s 0%nat = Some j ->
+     List.nth_error accusers k = Some ad -> find_index ks ad 0%nat = Some a -> List.nth_error vals k = Some v ->
+     verify a v c = true) ->
+  (forall h s accused ad a,
+     List.In (h, DAccusation s e accused) allh -> phase_at L h start = Accusing ->
+     find_index ks s 0%nat = Some a -> List.In ad accused -> find_index ks ad 0%nat = Some j ->
+     exists h' s' accusers vals k ad' v,
+       List.In (h', DApology s' e accusers vals) allh /\ phase_at L h' start = Apologizing /\
+       find_index ks s' 0%nat = Some j /\ List.nth_error accusers k = Some ad' /\ find_index ks ad' 0%nat = Some a /\
+       List.nth_error vals k = Some v /\ valid_eval v = true) ->
+  exists pf, res C E P xf e = Some (mkRes C E (is_result C E (compute_result C E P verify pf)) (compute_result C E P verify pf)) /\
+             is_corrupt C E P verify pf j = false /\ nth_opt (p_commits pf) j = Some c.
+Proof. exact no_false_conviction. Qed.
+Print Assumptions C07_no_false_conviction.
+
+(* all hypotheses hold for keyper B in a run in which B accuses the honest dealer A in the
+   accusing phase and A apologises in the apologising phase (Proofs/DKGConvictExamples.v) *)
+Example C07_no_false_conviction_nonvacuous :
+  DkgEx.run DkgEx.B DkgEx.c20 (firstn 2 ConvEx.blocks2) = Some ConvEx.x2 /\
+  held DkgEx.C DkgEx.E DkgEx.P ConvEx.e1 ConvEx.a2 Dealing ConvEx.x2 ConvEx.a2 /\
+  run_blocks DkgEx.C DkgEx.E DkgEx.P DkgEx.commit_of DkgEx.eval_of DkgEx.verify DkgEx.deg_ok DkgEx.valid_eval DkgEx.B DkgEx.L
+             (fun m => m) (fun _ => DkgEx.c20) ConvEx.lchf ConvEx.x2 ConvEx.rest = Some ConvEx.x8 /\
+  ConvEx.allh = evs_of DkgEx.C DkgEx.E ConvEx.rest /\
+  (List.In (ConvEx.h4, DAccusation DkgEx.B ConvEx.e1 (DkgEx.A :: nil)) ConvEx.allh /\ phase_at DkgEx.L ConvEx.h4 ConvEx.h2 = Accusing) /\
+  (exists k b s, List.nth_error ConvEx.rest k = Some b /\
+     Z.lt (Z.add (Z.add ConvEx.h2 1) (Z.of_nat k)) (Z.add ConvEx.h2 DkgEx.L) /\
+     List.In (DCommit s ConvEx.e1 ConvEx.c10) (snd b) /\ find_index (DkgEx.A :: DkgEx.B :: nil) s 0%nat = Some 0%nat /\
+     DkgEx.deg_ok ConvEx.t2 ConvEx.c10 = true) /\
+  exists pf, res DkgEx.C DkgEx.E DkgEx.P ConvEx.x8 ConvEx.e1 =
+               Some (mkRes DkgEx.C DkgEx.E (is_result DkgEx.C DkgEx.E (compute_result DkgEx.C DkgEx.E DkgEx.P DkgEx.verify pf))
+                           (compute_result DkgEx.C DkgEx.E DkgEx.P DkgEx.verify pf)) /\
+             is_corrupt DkgEx.C DkgEx.E DkgEx.P DkgEx.verify pf 0%nat = false /\ nth_opt (p_commits pf) 0%nat = Some ConvEx.c10.
+Proof.
+  split; first exact ConvEx.x2_is_reached. split; first exact ConvEx.ex_held. split; first exact ConvEx.ex_run.
+  split; first by []. split; first exact ConvEx.ex_accused. split; first exact ConvEx.ex_lcj. exact ConvEx.ex_good.
+Qed.
 
 (* The phase function of the model is, for all phase lengths, heights and start heights, the
    function the translator produces from keyper/dkgphase/phase.go (NewConstantPhaseLength and
